@@ -64,6 +64,9 @@ func init() {
 			if idx%5000 == 77 {
 				return genRingLap(r)
 			}
+			if idx%400 == 133 {
+				return genBurstBehindSlowCommit(r)
+			}
 			if idx%4 == 3 {
 				o.faults = "err"
 			}
@@ -111,6 +114,22 @@ func init() {
 // one successful write, then a full lap of further revisions on the same node: whatever an earlier
 // event left in its slot meets the sequencer again exactly one lap later. Long (about 100 000 writes),
 // therefore rare (one run in 5000).
+// genBurstBehindSlowCommit: one write's storage commit answers late while a few hundred later writes
+// complete: when it finally answers, the sequencer finds more ready revisions in a row than it
+// publishes in one batch (300).
+func genBurstBehindSlowCommit(r *rt.Rand) *world.Scenario {
+	sc := &world.Scenario{Prefix: prefix, InitRev: pickInitRev(r), Seed: r.Uint64(), Engine: "memkv", Class: "burst-behind-a-slow-commit", Stick: 0.9}
+	sc.Inactive = []string{"kv.get", "kv.get.ret", "kv.commit.ret", "kv.parts", "seq.cache", "seq.bcast", "seq.sent", "hub.recv", "client.next"}
+	sc.Plan = []*simkv.Fault{{Op: "commit", Class: "data", Who: "client0", Nth: 1, Effect: fmt.Sprintf("delay:%d", 2000+r.Intn(3000))}}
+	n := int64(290 + r.Intn(150))
+	sc.Clients = []world.Client{
+		{Ops: []world.Op{{K: "watch", Key: prefix + "/", W: 1, Consume: "eager"}, {K: "create", Key: prefix + "/slow", Val: "s"}}},
+		{Ops: []world.Op{{K: "sleep", Ms: 100}, {K: "burst", Key: prefix + "/f", Val: "b", Limit: n, Ms: n}, {K: "sleep", Ms: 6000}, {K: "waitcommitted"}}},
+	}
+	sc.MaxSteps = 400000
+	return sc
+}
+
 func genRingLap(r *rt.Rand) *world.Scenario {
 	sc := &world.Scenario{Prefix: prefix, InitRev: pickInitRev(r), Seed: r.Uint64(), Engine: "memkv", Class: "slot-ring-full-lap", Stick: 0.9}
 	sc.Inactive = []string{"kv.get", "kv.get.ret", "kv.commit", "kv.commit.ret", "kv.parts", "kv.del", "kv.del.ret", "kv.delcur", "kv.delcur.ret",
